@@ -206,6 +206,23 @@ def Pop.initial (params : List Param) (n : Nat) (attrs : List Rat) (opts : List 
   { heap := [{ params := params, cache := params.map (fun _ => none) }],
     agents := List.replicate n { attrs := attrs, cfg := 0, opts := opts } }
 
+/-- how the constructor argument `hp_config` of the initial members is related: ONE object for everybody
+    (`hp_config=hp_config`, the code as it is) or a private copy each (e.g. `copy.deepcopy(hp_config)`).  Which of the
+    two the source says is read by `harness/py2lean_pop.py` (`Proofs/PopGenEq.lean`). -/
+inductive CfgProv where
+  | shared
+  | perAgent
+deriving Repr, DecidableEq
+
+/-- the initial population for either way of handing out the configuration: `n` identical agents; with `.shared` all
+    refer to address 0 (`Pop.initial`), with `.perAgent` member `i` refers to its own object at address `i` -/
+def Pop.initialWith (prov : CfgProv) (params : List Param) (n : Nat) (attrs : List Rat) (opts : List Opt) : Pop :=
+  match prov with
+  | .shared => Pop.initial params n attrs opts
+  | .perAgent =>
+    { heap := List.replicate n { params := params, cache := params.map (fun _ => none) },
+      agents := (List.range n).map fun (i : Nat) => { attrs := attrs, cfg := i, opts := opts } }
+
 /-! ### specification: no configuration objects, no cache -/
 
 /-- what can be observed of an agent: its attributes and its optimizers' learning rates -/
